@@ -195,6 +195,8 @@ def shape_of(path, line):
                     ev = json.loads(l)
                 except Exception:
                     ev = None
+    if isinstance(ev, dict) and ev.get("op") == "corrupt":
+        return corrupt_shape(path, line, cfg, ev)
     if not isinstance(ev, dict) or ev.get("op") != "it":
         return None
     res, b = ev.get("res", []), rebound.get(ev.get("h"))
@@ -204,6 +206,49 @@ def shape_of(path, line):
     if b:
         return "rebound-iterator"
     return None
+
+
+def corrupt_shape(path, line, cfg, ev):
+    """Diagnostic shape of a rejected corrupt{} event (C27): aligns the re-run results with the leader's it/fit events of
+    the segment and looks at the first result that is neither an error nor the leader's result."""
+    lead = []
+    with open(path) as f:
+        for i, l in enumerate(f, 1):
+            if i >= line:
+                break
+            if '"op":"table"' in l:
+                lead = []
+            elif '"op":"it"' in l or '"op":"fit"' in l:
+                try:
+                    lead.append(json.loads(l))
+                except Exception:
+                    pass
+    res = ev.get("res", [])
+    if ev.get("open") != "ok" or len(res) != len(lead):
+        return "corrupt-results-misaligned"
+    bad = [i for i, r in enumerate(res) if r != [-1] and r != lead[i]["res"]]
+    if not bad:
+        return None
+    i = bad[0]
+    errs_before = any(r == [-1] for r in res[:i])
+    same_call = i > 0 and all(lead[i].get(k) == lead[i - 1].get(k) for k in ("op", "o", "k", "h"))
+    if cfg.startswith("db/") and res[i] == [] and same_call and res[i - 1] == [-1]:
+        return "db-iterator-same-seek-after-value-error-reports-exhaustion" if is_value_block_error(path, line, lead, res, i) \
+            else "db-iterator-same-seek-after-error-reports-exhaustion"
+    if res[i] == [-2]:
+        return "panic-on-corrupted-table"
+    if same_call and res[i - 1] == [-1]:
+        return "same-call-retried-after-error-returns-wrong-result"
+    if errs_before:
+        return "wrong-result-on-an-iterator-that-reported-an-error-earlier"
+    return "wrong-result-without-any-error"
+
+
+def is_value_block_error(path, line, lead, res, i):
+    """the error before the silent exhaustion came from fetching the value (the key itself was found): the same call
+    succeeds on other keys of the same run, and the failing call's leader result has a non-empty value"""
+    r = lead[i]["res"]
+    return len(r) == 4 and r[3] != 0
 
 
 def validate_files(run, specdir, module, cfgname, cfgbytes, files, vocab, label, batch_lines=60000, sig_fields=("op", "o", "t")):
@@ -312,6 +357,22 @@ def binding_demo(run, specdir, module, cfgname, cfgbytes, files, corrupt, droppa
     if not (done_c and done_d):
         raise vlib.Inconclusive("binding demo could not be completed (corrupt=%s drop=%s)" % (done_c, done_d))
     run.cov["binding_demo"] = "one corrupted logged result and one dropped event of accepted real traces were both rejected by TLC"
+
+
+def demo_sample(files, path, corrupt, n, heads=('"op":"table"', '"op":"levels"')):
+    """a self-contained piece of an accepted trace for the binding demo: n lines starting at a segment head (table{} /
+    levels{} reset the trace spec's state) and containing a line that `corrupt` can alter and a relative step"""
+    for f in files[:6]:
+        lines = open(f).read().splitlines()
+        starts = [i for i, l in enumerate(lines) if any(h in l for h in heads)]
+        for st in starts[:400]:
+            piece = lines[st:st + n]
+            good = [l for l in piece if corrupt(l) is not None]
+            if len(good) >= 3 and any(droppable_it(l) for l in piece):
+                with open(path, "w") as o:
+                    o.write("\n".join(piece) + "\n")
+                return path
+    raise vlib.Inconclusive("binding demo: no trace piece with a corruptible result found")
 
 
 def run_go(binp, test, env, timeout=3000):
@@ -479,17 +540,32 @@ def corrupt_corrupt(l):
     return None
 
 
+RETRY_BUGS = ["Retry_StaleBlockKept", "Retry_ErrorNotSticky"]
+
+
 def run_c27(run):
     quick = run.tier == "quick"
     vlib.sany(SPECDIR, "InternalIterGen")
     vlib.sany(SPECDIR, "InternalIterTrace")
+    vlib.sany(SPECDIR, "BlockRetry")
     # the oracle of this fault enumeration is the C25 list model: its own properties, small scope
     consts = dict(P=2, S=1, Bug="none", MaxN=2, Seqs=2, Kinds={1}, MaxOps=1000000, Emit=False)
-    with Phase(run, "design"):
-        r = design_run(SPECDIR, "InternalIterGen", cfg_text(consts, invariants=["Inv"], view="View"), workers=WORKERS, timeout=2400, heap="10g")
-    run.add_design("InternalIterGen exhaustive (oracle sanity: 4 user keys, seqnums 1..2, <=2 entries)", r)
-    with Phase(run, "seeded_bugs"):
-        run_bug_cfgs(run, SPECDIR, "InternalIterGen", ["UpperInclusive", "SeekLTInclusive"])
+    box = {}
+
+    def design():
+        box["gen"] = design_run(SPECDIR, "InternalIterGen", cfg_text(consts, invariants=["Inv"], view="View"),
+                                workers=max(2, WORKERS // 2), timeout=2400, heap="10g")
+
+    def design_retry():
+        # calls continuing on one iterator after a failed block load: every block partition of N keys, every unreadable
+        # block, every call sequence (the state space is finite: no depth bound)
+        box["retry"] = design_run(SPECDIR, "BlockRetry", cfg_text(dict(N=(5 if quick else 7), Bug="none"), invariants=["Inv"]),
+                                  workers=2, timeout=2400, heap="4g")
+
+    def bugs():
+        run_bug_cfgs(run, SPECDIR, "InternalIterGen", ["UpperInclusive", "SeekLTInclusive"], workers=1 if quick else 2)
+        run_bug_cfgs(run, SPECDIR, "BlockRetry", RETRY_BUGS, workers=1)
+
     binp = vlib.build_driver("internal/verif/sstdrv", name="internal_verif_sstdrv" + DRVSUFFIX)
     tdir = vlib.scratch("verif.sst27.")
     allf = list(range(3, 11))           # sstable.TableFormatPebblev1 .. Pebblev8
@@ -500,9 +576,24 @@ def run_c27(run):
     else:
         formats = allf
     env = dict(VERIF_OUT=tdir, VERIF_SEED=str(run.seed), VERIF_P="3", VERIF_S="2", VERIF_TABLES=str(1 if quick else 4),
-               VERIF_FORMATS=",".join(str(f) for f in formats))
-    with Phase(run, "driver"):
-        out, info = run_go(binp, "TestC27", env)
+               VERIF_FORMATS=",".join(str(f) for f in formats),
+               # calls continuing after an error: tables per format (alternating single-level / two-level index), offset stride
+               VERIF_RETRY_TABLES=str(2 if quick else 4), VERIF_RETRY_STRIDE=str(5 if quick else 2),
+               VERIF_DB_TABLES=str(2 if quick else 6), VERIF_DB_STRIDE=str(7 if quick else 2),
+               VERIF_DRV_WORKERS=str(max(2, min(6, WORKERS // 2))))
+    res = {}
+
+    def drive():
+        with Phase(run, "driver"):
+            res["out"], res["info"] = run_go(binp, "TestC27", env)
+    # the design-level TLC runs and the driver are independent: side by side
+    with Phase(run, "design+seeded_bugs+driver"):
+        in_parallel(design, design_retry, bugs, drive)
+    run.add_design("InternalIterGen exhaustive (oracle sanity: 4 user keys, seqnums 1..2, <=2 entries)", box["gen"])
+    run.add_design("BlockRetry exhaustive (keys 1..N cut into blocks in every way, every unreadable block or none, every sequence of "
+                   "First/Last/SeekGE/SeekLT/Next/Prev on ONE iterator: each result is the list model's or an error, also after an error)",
+                   box["retry"])
+    out, info = res["out"], res["info"]
     files = sorted(glob.glob(os.path.join(tdir, "c27-*.ndjson")))
     if not files:
         raise vlib.Inconclusive("no traces produced")
@@ -526,15 +617,26 @@ def run_c27(run):
     run.cov["evaluations"] = steps
     run.cov["distinct_nontrivial"] = info.get("corruptions", 0) - info.get("openerr", 0)
     run.cov["rule"] = ("one case = one (table, byte offset, corruption pattern) whose altered bytes differ from the original; evaluations = step results "
-                       "of the re-run C25 script that TLC compared with {model result} u {error}; non-trivial = the corrupted table still opened, so "
+                       "of the re-run script that TLC compared with {model result} u {error}; non-trivial = the corrupted table still opened, so "
                        "its iterators were actually exercised (the others are rejected at open, also logged and accepted)")
     run.cov["driver"] = info
+    run.cov["results_after_an_error"] = info.get("resultsaftererror", 0)
     run.cov["formats"] = formats
     run.cov["exhaustive_over_offsets"] = True
     run.sample({"trace": os.path.basename(files[0]), "first_events": [json.loads(l) for l in list(open(files[0]))[:3]]})
     run.assumptions += [
         "every byte offset of each table x {flip one bit, zero, 0xFF, swap with neighbour}; tables are small (about 1-2 KiB: several data blocks, "
         "two-level index in some, bloom filter, value blocks, range-del and range-key blocks, properties)",
+        "calls continuing on the SAME iterator after an error (BlockRetry.tla): for tables with >= 3 data blocks (single-level and two-level "
+        "index, row and columnar formats) one iterator runs, for every anchor (First, Last, two middle seeks) and every SeekGE/SeekLT/SeekPrefixGE "
+        "key: anchor, seek, the same seek again (also with TrySeekUsingNext where legal), a relative step, the seek again, SetBounds and the seek "
+        "again; every result after an error must still be the model's result or an error. These runs cover every %s-th byte offset with one "
+        "pattern each (rotating); the same shape is run through a pebble.Iterator over a read-only DB holding the altered table (%s-th offset), "
+        "whose levelIter keeps the table's iterator across seeks" % (env["VERIF_RETRY_STRIDE"], env["VERIF_DB_STRIDE"]),
+        "a relative step (Next/Prev) after an error is compared with the step from the position the failed call has on the pristine table: "
+        "the code returns an error there (the iterator must be re-seeked); a key other than that one is rejected",
+        "DB segments: the table{} event holds the user-level content (one SET per user key); sequence numbers are not observable through "
+        "pebble.Iterator and are logged as the constant 1",
         "formats before Pebblev6 end in the RocksDB-style footer, which has no checksum: altering its version field makes the reader silently decode "
         "values differently (observed: Pebblev1 read as Pebblev3). The checked footer of Pebblev6+ is the fix; the legacy footer bytes (last 53) "
         "of formats <= Pebblev5 are therefore excluded from the enumeration (VERIF_LEGACY_FOOTER=1 includes them)",
@@ -663,9 +765,16 @@ def run_c29(run):
         r = design_run(SPECDIR, "VirtGen", cfg_text(consts, invariants=["Inv"]), workers=WORKERS, timeout=2400, heap="8g")
     run.add_design("VirtGen exhaustive (6 user keys, <=%d entries, every virtual bound pair incl. inclusive upper bounds, every synthetic "
                    "suffix/seqnum permitted by the preconditions; CopySpan acceptance)" % consts["MaxN"], r)
+    # CopySpan's block-copy mechanism over block sizes and cache states (CopyBatch.tla)
+    cb = dict(MaxB=(4 if quick else 6), Sizes={1, 2, 4}, Target=3, Bug="none")
+    with Phase(run, "design_copybatch"):
+        r2 = design_run(SPECDIR, "CopyBatch", cfg_text(cb, invariants=["Inv"]), workers=max(2, WORKERS // 2), timeout=2400, heap="4g")
+    run.add_design("CopyBatch exhaustive (<=%d data blocks of sizes 1/2/4 against a read target of 3, every cache state, every block span: "
+                   "every block of the span copied exactly once, in order)" % cb["MaxB"], r2)
     with Phase(run, "seeded_bugs"):
-        run_bug_cfgs(run, SPECDIR, "VirtGen", ["Virt_SuffixNotApplied", "Virt_VirtLowerIgnored"])
-        run_bug_cfgs(run, SPECDIR, "InternalIterGen", ["LowerExclusive", "UpperInclusive", "ReuseUpperInclusive"])
+        in_parallel(lambda: run_bug_cfgs(run, SPECDIR, "VirtGen", ["Virt_SuffixNotApplied", "Virt_VirtLowerIgnored"]),
+                    lambda: run_bug_cfgs(run, SPECDIR, "InternalIterGen", ["LowerExclusive", "UpperInclusive", "ReuseUpperInclusive"]),
+                    lambda: run_bug_cfgs(run, SPECDIR, "CopyBatch", ["Copy_ExtraIncrement", "Copy_RunRestartsAtHit"], workers=1))
     binp = vlib.build_driver("internal/verif/sstdrv", name="internal_verif_sstdrv" + DRVSUFFIX)
     tdir = vlib.scratch("verif.sst29.")
     sf = os.path.join(tdir, "scripts.jsonl")
@@ -677,7 +786,9 @@ def run_c29(run):
         for sc in scripts:
             o.write(json.dumps(sc) + "\n")
     env = dict(VERIF_OUT=tdir, VERIF_SEED=str(run.seed), VERIF_TIER=run.tier, VERIF_SCRIPTFILE=sf, VERIF_P=str(DRV_P), VERIF_S=str(DRV_S),
-               VERIF_TABLES=str(15 if quick else 60), VERIF_OPS=str(18 if quick else 30))
+               VERIF_TABLES=str(15 if quick else 60), VERIF_OPS=str(18 if quick else 30),
+               # tables whose cold data-block runs exceed CopySpan's read-size target once and several times
+               VERIF_BIGCOPY=str(2 if quick else 8))
     with Phase(run, "driver"):
         out, info = run_go(binp, "TestC29", env)
     files = sorted(glob.glob(os.path.join(tdir, "c29-*.ndjson")))
@@ -688,11 +799,7 @@ def run_c29(run):
         ev, rej = validate_files(run, SPECDIR, "InternalIterTrace", "t.cfg", cfgb, files, {"it", "fit", "copyspan", "fail"}, "C29")
     if rej == 0:
         with Phase(run, "binding_demo"):
-            small = os.path.join(tdir, "demo.nd")
-            with open(small, "w") as o:
-                for i, l in enumerate(open(files[0])):
-                    if i < 2500:
-                        o.write(l)
+            small = demo_sample(files, os.path.join(tdir, "demo.nd"), corrupt_copyspan, 2500)
             binding_demo(run, SPECDIR, "InternalIterTrace", "t.cfg", cfgb, [small], corrupt_copyspan, droppable_it)
     evals, distinct = seg_stats(files, opnames=("it", "fit", "copyspan"))
     nv = dict(n=0, bounded=0, incl=0, ssuf=0, sseq=0)
@@ -723,6 +830,12 @@ def run_c29(run):
         "a synthetic prefix is a monotone bijection of user keys: identity on ranks; the driver prepends it to every key it passes and strips and "
         "verifies it on every key it gets back",
         "CopySpan is run on the physical table (it is not transform-aware); accepted outputs: any subsequence of the input containing the whole span",
+        "CopySpan dimensions named by CopyBatch.tla: the reader's block cache is cold, or holds the blocks of a drawn set of keys (read through "
+        "the same cache before the copy); besides the small tables, %s tables of 0.3-2 MiB (uncompressed values of up to 300 KB, one entry per "
+        "data block, no value blocks/spans so that the block-copy path is taken) are copied under the newest columnar format, another columnar "
+        "format and the newest row format (whole span, interior span, random span, whole span with warm blocks): their cold runs exceed the "
+        "256 KiB read-size target of copyDataBlocks once and several times (max read batches in this run: %s)"
+        % (env["VERIF_BIGCOPY"], info.get("maxreadbatches")),
         "virtual tables through Excise at DB level are the KV engine's C36",
     ]
 
@@ -749,7 +862,13 @@ def REGISTER(reg):
         "Fault enumeration: for small tables of the selected table formats (all formats in the thorough tier), every byte offset x {flip one bit, "
         "zero, 0xFF, swap with neighbour}; the table is reopened with the real reader and the full C25 op script (scans in both directions, "
         "every seek key, prefix seeks, NextPrefix, bounded iterator, range-del and range-key iterators, lazy value fetches) is re-run; TLC "
-        "accepts a step only if its result is the model's result or an error - a silently different key, seqnum, kind or value is a rejected step.",
+        "accepts a step only if its result is the model's result or an error - a silently different key, seqnum, kind or value is a rejected step. "
+        "Calls that CONTINUE on the same iterator after an error are part of it: on tables with several data blocks (single-level and two-level "
+        "index, row and columnar) one iterator runs anchor / seek / the same seek again / relative step / seek again / SetBounds + seek for every "
+        "anchor and seek key over a sample of the offsets, at the sstable iterators and through a pebble.Iterator over a DB holding the altered "
+        "table; every result after the first error must still be the model's result or an error. BlockRetry.tla states this for a block-loading "
+        "iterator mechanism (exhaustive over block partitions, unreadable block and call sequences; seeded bugs: stale block kept after a failed "
+        "load, error not sticky).",
         C_NOTE + " Not covered: blob files; the unchecked RocksDB-style footer of formats before Pebblev6 (documented weakness, excluded).",
         C_TECH, "DESIGN 6/C27", level="fault_enumeration", engine="sst")
 
@@ -769,8 +888,12 @@ def REGISTER(reg):
         "real virtual readers (ReadEnv.Virtual with exclusive and inclusive upper bounds), synthetic prefix, suffix and sequence number "
         "(IterTransforms / FragmentIterTransforms), for points, range deletions and range keys; CopySpan outputs are read back. TLC decides every "
         "result against Virtual(list, bounds, suffix, seqnum) = filter/map of the list model and CopySpanOK; the properties of Virtual and the "
-        "CopySpan acceptance predicate are checked exhaustively in a small scope with seeded-bug self tests.",
+        "CopySpan acceptance predicate are checked exhaustively in a small scope with seeded-bug self tests. CopySpan is also run with cold and "
+        "partly warm block caches and on tables of 0.3-2 MiB whose runs of cold data blocks exceed the writer's 256 KiB read-size target once and "
+        "several times (dimensions named by CopyBatch.tla, the block-copy mechanism checked exhaustively over block sizes x cache states, seeded "
+        "bugs: extra increment per batch, run not reset at a cache hit).",
         C_NOTE, C_TECH, "DESIGN 6/C29", engine="sst")
 
 
-SPEC_MODULES = [("InternalIter", "VirtGen"), ("InternalIter", "MergeGen"), ("InternalIter", "InternalIterGen"), ("InternalIter", "InternalIterTrace")]
+SPEC_MODULES = [("InternalIter", "VirtGen"), ("InternalIter", "MergeGen"), ("InternalIter", "InternalIterGen"), ("InternalIter", "InternalIterTrace"),
+                ("InternalIter", "BlockRetry"), ("InternalIter", "CopyBatch")]
